@@ -217,6 +217,7 @@ def kindEq : TStep → TStep → Bool
   | .uint a, .uintAlg => a == 8
   | .uint a, .uintTtl _ => a == 32
   | .name, .name => true
+  | .endStr false, .tokStr => true
   | _, _ => false
 
 /-- the print plan `P` (from `String()`) and the parse plan `Q` (from `parse`) describe the same RDATA text: single-token
@@ -225,6 +226,7 @@ def matchPlans : List TStep → List TStep → Bool
   | [.txt], [.txt] => true
   | [.txtPair], [.txtPair] => true
   | [.txtFirst], [.txtFirst] => true
+  | [.octet], [.octet] => true
   | [.endStr _], [.endStr _] => true
   | [.endStr _], [.tok, .slurp] => true
   | [p], [q, .slurp] => kindEq p q
@@ -232,12 +234,16 @@ def matchPlans : List TStep → List TStep → Bool
   | p :: .blank :: P, q :: .blank :: Q => kindEq p q && matchPlans P Q
   | _, _ => false
 
+/-- one non-empty word of plain octets -/
+def RestWF' (t : Bytes) : Prop := t ≠ [] ∧ t.all plain = true
+
 /-- a field value that can come from the wire -/
 def FieldWF : TStep → TVal → Prop
   | .uint bits, .n v => v < 2 ^ bits
   | .uintAlg, .n v => v < 2 ^ 8
   | .uintTtl _, .n v => v < 2 ^ 32
   | .name, .s t => ∃ ls, WireNameOK ls ∧ t = presentOf ls
+  | .tokStr, .s t => RestWF' t
   | _, _ => False
 
 /-- the rest-of-entry string: one non-empty word of plain octets (hex, base64 and the like) -/
@@ -268,7 +274,7 @@ theorem normRest_word (up : Bool) (t : Bytes) (h : RestWF t) : Word (normRest up
 /-- the word a single-token field is printed as, and that the parser reads it back -/
 theorem field_word (p q : TStep) (v : TVal) (hk : kindEq p q = true) (hw : FieldWF q v) (origin : Bytes) :
     ∃ w, (∀ vs, printStep p (v :: vs) = some (w, vs)) ∧ Word w ∧
-      (∀ (t : Tok) (ts : List Tok) (Q : List TStep) (acc : List TVal), t.token = w → t.err = false →
+      (∀ (t : Tok) (ts : List Tok) (Q : List TStep) (acc : List TVal), t.token = w → t.err = false → t.value = zString →
         parsePlan origin (q :: Q) (t :: ts) acc = parsePlan origin Q ts (acc ++ [v])) := by
   cases p <;> cases q <;> simp only [kindEq, Bool.false_eq_true] at hk
   case uint.uint b1 bits =>
@@ -276,7 +282,7 @@ theorem field_word (p q : TStep) (v : TVal) (hk : kindEq p q = true) (hw : Field
     rename_i n
     obtain ⟨hd, hv⟩ := itoa_spec n
     refine ⟨itoa n, fun vs => rfl, digits_word _ hd, ?_⟩
-    intro t ts Q acc ht he
+    intro t ts Q acc ht he _hval
     simp only [parsePlan, headTok, ht, parseUintN_digits bits (itoa n) hd (by rw [hv]; exact hw), hv, he, Bool.false_eq_true,
       ↓reduceIte, List.tail_cons]
   case uint.uintAlg b1 =>
@@ -284,22 +290,65 @@ theorem field_word (p q : TStep) (v : TVal) (hk : kindEq p q = true) (hw : Field
     rename_i n
     obtain ⟨hd, hv⟩ := itoa_spec n
     refine ⟨itoa n, fun vs => rfl, digits_word _ hd, ?_⟩
-    intro t ts Q acc ht he
+    intro t ts Q acc ht he _hval
     simp only [parsePlan, headTok, ht, parseUintN_digits 8 (itoa n) hd (by rw [hv]; exact hw), hv, List.tail_cons]
   case uint.uintTtl b1 strict =>
     cases v <;> simp only [FieldWF] at hw
     rename_i n
     obtain ⟨hd, hv⟩ := itoa_spec n
     refine ⟨itoa n, fun vs => rfl, digits_word _ hd, ?_⟩
-    intro t ts Q acc ht he
+    intro t ts Q acc ht he _hval
     simp only [parsePlan, headTok, ht, parseUintN_digits 32 (itoa n) hd (by rw [hv]; exact hw), hv, he, Bool.false_eq_true,
       ↓reduceIte, List.tail_cons]
+  case endStr.tokStr u =>
+    cases u <;> simp only [kindEq, Bool.false_eq_true] at hk
+    cases v <;> simp only [FieldWF] at hw
+    rename_i t
+    refine ⟨t, fun vs => by simp [printStep], ⟨hw.1, plain_wordOK t hw.2 hw.1⟩, ?_⟩
+    intro tk ts Q acc ht he hval
+    simp only [parsePlan, headTok, ht, he, hval, Bool.false_eq_true, false_or, ne_eq, not_true_eq_false, ↓reduceIte, List.tail_cons]
   case name.name =>
     cases v <;> simp only [FieldWF] at hw
     obtain ⟨ls, hok, rfl⟩ := hw
     refine ⟨presentOf ls, fun vs => by simp [printStep, sprintName_present], name_word ls, ?_⟩
-    intro t ts Q acc ht he
+    intro t ts Q acc ht he _hval
     simp only [parsePlan, headTok, ht, toAbsoluteName_present ls hok origin, he, Bool.false_eq_true, ↓reduceIte, List.tail_cons]
+
+theorem txtEscape_len_ge (raw : Bytes) : raw.length ≤ (txtEscape raw).length := by
+  have hb : ∀ b : Byte, 1 ≤ (txtEscapeByte b).length := by apply C07.forall_byte; decide +kernel
+  induction raw with
+  | nil => simp
+  | cons x xs ih =>
+    rw [txtEscape_cons, List.length_append, List.length_cons]
+    have := hb x
+    omega
+
+/-- how `unpackStringOctet` holds octets from the wire: every backslash doubled, everything else as it is -/
+def octEsc (raw : Bytes) : Bytes := raw.flatMap (fun b => if b = 92 then [92, 92] else [b])
+
+theorem isDDD_bs (t : Bytes) : isDDD (92 :: t) = false := by
+  cases t with
+  | nil => rfl
+  | cons a t => cases t with
+    | nil => rfl
+    | cons b t => simp [isDDD, isDigit]
+
+/-- **sprintTxtOctet of wire-born octets**: the quoted character-string spelling of the octets -/
+theorem octetRe_octEsc (raw : Bytes) : octetRe (octEsc raw) = txtEscape raw := by
+  induction raw with
+  | nil => simp [octEsc, octetRe, txtEscape]
+  | cons b raw ih =>
+    unfold octEsc at ih ⊢
+    by_cases hb : b = 92
+    · subst hb
+      simp only [List.flatMap_cons, if_true, List.cons_append, List.nil_append]
+      rw [octetRe.eq_def]
+      simp only [if_true, isDDD_bs, Bool.false_eq_true, if_false]
+      have : (92 : Byte) ≠ 46 := by decide
+      simp only [this, if_false, ih, txtEscape, List.flatMap_cons]
+    · simp only [List.flatMap_cons, hb, if_false, List.cons_append, List.nil_append]
+      rw [octetRe.eq_def]
+      simp only [hb, if_false, ih, txtEscape, List.flatMap_cons]
 
 /-- field values that fit a printer / parser pair, and what the parser stores for them (the rest-of-entry string in
     upper case where the printer upper-cases it) -/
@@ -309,6 +358,7 @@ inductive Fits : List TStep → List TStep → List TVal → List TVal → Prop
   | pair (a b : Bytes) (ha : a.length ≤ 255) (hb : b.length ≤ 255) :
       Fits [.txtPair] [.txtPair] [.s (txtEscape a), .s (txtEscape b)] [.s (txtEscape a), .s (txtEscape b)]
   | first (a : Bytes) (ha : a.length ≤ 255) : Fits [.txtFirst] [.txtFirst] [.s (txtEscape a)] [.s (txtEscape a)]
+  | octet (raw : Bytes) : Fits [.octet] [.octet] [.s (octEsc raw)] [.s (txtEscape raw)]
   | rest (u u' : Bool) (t : Bytes) (h : RestWF t) : Fits [.endStr u] [.endStr u'] [.s t] [.s (normRest u t)]
   | tok (u : Bool) (t : Bytes) (h : RestWF t) : Fits [.endStr u] [.tok, .slurp] [.s t] [.s (normRest u t)]
   | last (p q : TStep) (v : TVal) (hk : kindEq p q = true) (hw : FieldWF q v) : Fits [p] [q, .slurp] [v] [v]
@@ -362,6 +412,31 @@ theorem text_roundtrip (P Q : List TStep) (vals vals' : List TVal) (hf : Fits P 
     have := txt_family_text_roundtrip zl [a] rest hL (by intro bs hbs; simp at hbs; rw [hbs]; exact ha)
     simp only [List.map_cons, List.map_nil] at this
     simp only [parsePlan, this, Option.map_some, List.headD_cons]
+  | octet raw =>
+    refine ⟨sprintTxtOctet (octEsc raw), by simp [printPlan, printStep], ?_⟩
+    unfold sprintTxtOctet
+    rw [octetRe_octEsc]
+    obtain ⟨h1, h2⟩ := txtEscape_ok raw
+    have e : [34] ++ txtEscape raw ++ [34] ++ 10 :: rest = 34 :: (txtEscape raw ++ 34 :: (10 :: rest)) := by simp
+    rw [e]
+    obtain ⟨q1, mid, q2, zl', a1, a2, a3, a4, a5, a6, a7, a8⟩ :=
+      stream_quoted zl (txtEscape raw) (10 :: rest) false true true hL h1 h2
+    obtain ⟨b, zl2, hst, hbv, hbe, _⟩ := stream_nl_first zl' rest false true false a5
+    rw [a6, hst]
+    have hlen := txtEscape_len_ge raw
+    have hesc : (escOffset (txtEscape raw) ((txtEscape raw).length + 1)).isSome = true := by
+      unfold escOffset
+      rw [if_neg (by omega), escOffsetAux_escape raw _ 0 0 _ (by omega) (by omega)]
+      rw [if_neg (by omega)]
+      rfl
+    by_cases hbs : txtEscape raw = []
+    · rw [a7 hbs]
+      rw [hbs] at hesc
+      simp [parsePlan, endingToOctet, octetTokens, a1, a2, a3, a4, hbv, hbs, zQuote, zNewline, zString, zBlank]
+      decide
+    · obtain ⟨t, ht, tv, tt, te⟩ := a8 hbs
+      rw [ht]
+      simp [parsePlan, endingToOctet, octetTokens, a1, a2, a3, a4, hbv, tv, te, tt, hesc, zQuote, zNewline, zString, zBlank]
   | rest u u' t h =>
     have hw := normRest_word u t h
     obtain ⟨tk, b, zl', hs, htk, hte, htv, hbv, hbe⟩ := rdata_last_tokens zl (normRest u t) rest hL hw
@@ -378,7 +453,7 @@ theorem text_roundtrip (P Q : List TStep) (vals vals' : List TVal) (hf : Fits P 
     obtain ⟨w, hp, hword, hq⟩ := field_word p q v hk hw origin
     obtain ⟨tk, b, zl', hs, htk, hte, htv, hbv, hbe⟩ := rdata_last_tokens zl w rest hL hword
     refine ⟨w, by simp [printPlan, hp []], ?_⟩
-    rw [hs, hq tk _ _ acc htk hte]
+    rw [hs, hq tk _ _ acc htk hte htv]
     simp [parsePlan, slurpRemainder, hbv, zNewline, zBlank]
   | lastRest p q v u u' t hk hw ht =>
     obtain ⟨w, hp, hword, hq⟩ := field_word p q v hk hw origin
@@ -390,7 +465,7 @@ theorem text_roundtrip (P Q : List TStep) (vals vals' : List TVal) (hf : Fits P 
       rw [printPlan_cons p _ _ _ w (hp _), printPlan_blank,
         printPlan_cons (.endStr u) [] [.s t] [] (normRest u t) (by simp [printStep, normRest])]
       simp [printPlan], ?_⟩
-    rw [List.append_assoc, List.cons_append, hs1, hs2, hq t1 _ _ acc htk1 hte1]
+    rw [List.append_assoc, List.cons_append, hs1, hs2, hq t1 _ _ acc htk1 hte1 htv1]
     simp [parsePlan, endingToString, hbv1, hbe1, htv2, hte2, hbv2, htk2, zNewline, zString, zBlank]
   | cons p q v P Q vs vs' hk hw h ih =>
     obtain ⟨w, hp, hword, hq⟩ := field_word p q v hk hw origin
@@ -400,7 +475,7 @@ theorem text_roundtrip (P Q : List TStep) (vals vals' : List TVal) (hf : Fits P 
     have : txt2 = txt' := by rw [hp'] at hp2; exact (Option.some.inj hp2).symm
     subst this
     refine ⟨w ++ 32 :: txt2, by rw [printPlan_cons p _ _ _ w (hp vs), printPlan_blank, hp']; simp, ?_⟩
-    rw [List.append_assoc, List.cons_append, hs1, hq t1 _ _ acc htk1 hte1]
+    rw [List.append_assoc, List.cons_append, hs1, hq t1 _ _ acc htk1 hte1 htv1]
     simp only [parsePlan, List.tail_cons]
     rw [hq2]
     simp
